@@ -2,7 +2,7 @@
 import ast
 
 from .. import util
-from ..interp import Interp, Path, exc_value, is_exc, show, strip_sites, subterms, NONE
+from ..interp import Interp, Path, exc_value, is_exc, show, strip_sites, subterms, NONE, iteration_layers
 from ..report import Undecided
 
 SELF = ("sym", "self")
@@ -141,6 +141,10 @@ def structure_rules(chk):
                 )
                 ok1 = False
                 continue
+            extra_kw = [a if a is not None else "**" + show(b) for a, b in v[3] if a != "where"]
+            if extra_kw:
+                chk.bad("O19.1", name, "the translation of a mapping child is given %s: constructor arguments meant for this element (e.g. the pipeline's target=) leak into nested __type__ elements" % extra_kw, node=fi.node, stmt="child-extra-kwargs")
+                ok1 = False
             w = dict((a, b) for a, b in v[3] if a is not None).get("where")
             tpl = template(w) if w is not None else None
             chk.count()
@@ -163,12 +167,8 @@ def structure_rules(chk):
                 return t[2][0]
             return None
 
-        inner = unwrap(t, "list") or t
-        rev_out = unwrap(inner, "reversed")
-        comp = rev_out if rev_out is not None else inner
-        sliced = False
-        if comp[0] == "sub" and comp[2] == ("slice", NONE, NONE, ("const", -1)):
-            comp, rev_out, sliced = comp[1], comp[1], True
+        outer_layers, comp = iteration_layers(t)
+        rev_out = comp if outer_layers.count("reversed") % 2 == 1 else None
         if comp[0] != "comp" or comp[1] not in ("list", "gen"):
             chk.undecided("O19.2", name, "list translation idiom not recognised: %s" % show(t), node=fi.node)
             ok2 = False
@@ -179,11 +179,7 @@ def structure_rules(chk):
             ok2 = False
             continue
         tgt, src, _c = gens[0]
-        s = src
-        layers = []
-        while s[0] == "call" and s[1][0] == "glob" and s[1][1].startswith("ext:builtins.") and len(s[2]) == 1:
-            layers.append(s[1][1].split(".")[-1])
-            s = s[2][0]
+        layers, s = iteration_layers(src)
         if s != STRUCT:
             chk.bad("O19.2", name, "list items are taken from %s" % show(s), node=fi.node, stmt="list-domain")
             ok2 = False
@@ -211,6 +207,10 @@ def structure_rules(chk):
             chk.bad("O19.2", name, "a list item is %s instead of its translation" % show(elt), node=fi.node, stmt="item-untranslated")
             ok2 = False
             continue
+        extra_kw = [a if a is not None else "**" + show(b) for a, b in elt[3] if a != "where"]
+        if extra_kw:
+            chk.bad("O19.2", name, "the translation of a list item is given %s: constructor arguments of the parent leak into the items" % extra_kw, node=fi.node, stmt="item-extra-kwargs")
+            ok2 = False
         w = dict((a, b) for a, b in elt[3] if a is not None).get("where")
         tpl = template(w) if w is not None else None
         chk.count()
